@@ -1271,6 +1271,66 @@ def run(ck):
                 want_ca = False
             s3.expect(r == ("ok", want_ca) and pyres(lambda: chain[0].ca) == ("ok", want_ca), inp, "ca flag differs from the BasicConstraints extension", r, want_ca)
 
+    def der_declared_len(data):
+        """total length declared by a leading SEQUENCE header, read independently of the model (None = no readable header)"""
+        if len(data) < 2 or data[0] != 0x30:
+            return None
+        if data[1] < 0x80:
+            return 2 + data[1]
+        k = data[1] - 0x80
+        if k == 0 or k > 4 or len(data) < 2 + k:
+            return None
+        return 2 + k + int.from_bytes(data[2:2 + k], "big")
+
+    def loader_answers(data):
+        """the loader's CONTENT answers, obtained directly: length of the leading prefix cryptography loads as a certificate (0 = none), PEM loadable?"""
+        L = 0
+        L0 = der_declared_len(data)
+        if L0 is not None and L0 <= len(data) and pyres(cx509.load_der_x509_certificate, data[:L0])[0] == "ok":
+            L = L0
+        return L, pyres(cx509.load_pem_x509_certificate, data)[0] == "ok"
+
+    def real_load_class(data):
+        try:
+            cx509.load_der_x509_certificate(data)
+            return "ok:cert"
+        except ValueError as exc:
+            return "extra" if exc.args and "kind: ExtraData" in str(exc.args[0]) else "fail"
+        except Exception as exc:  # noqa: BLE001 - anything else is reported as such
+            return "other:" + type(exc).__name__
+
+    leaf_ders = []
+
+    def parse_cases(der, pem, nxp, tag, zero_end=False):
+        """Certificate.parse on every variant of one certificate (`der` = its DER form) vs the model + the round-trip oracle"""
+        hdr = der_declared_len(der) or 0
+        hl = 2 + (der[1] - 0x80 if der[1] >= 0x80 else 0)
+        variants = [("der", der), ("pem", pem), ("nxp", nxp[1] if nxp[0] == "ok" else der)] + [(f"zeros{k}", der + bytes(k)) for k in range(1, 6)] + [
+            ("nonzero-trailer", der + b"\x01"), ("zeros-then-nonzero", der + b"\x00\x00\x07"), ("truncated", der[:-1]), ("truncated-half", der[:len(der) // 2]),
+            ("garbage", bytes(rng.getrandbits(8) for _ in range(40))), ("empty", b""), ("pem-damaged", pem[:40] + b"!" + pem[41:]),
+            ("der-bitflip", flip(der, rng.randrange(8 * len(der)))),
+            # the declared length one more / one less than the data, a non-minimal length field, an indefinite length, another tag
+            ("declared-longer", der[:hl - 1] + bytes([(der[hl - 1] + 1) & 0xFF]) + der[hl:]), ("declared-shorter+zero", der[:hl - 1] + bytes([(der[hl - 1] - 1) & 0xFF]) + der[hl:]),
+            ("length-nonminimal", b"\x30" + bytes([der[1] + 1]) + b"\x00" + der[2:]), ("length-indefinite", b"\x30\x80" + der[hl:] + b"\x00\x00"),
+            ("other-tag", b"\x31" + der[1:])]
+        if zero_end:
+            variants += [("zeros-stripped", der.rstrip(b"\x00")), ("zeros-stripped+pad", der.rstrip(b"\x00") + bytes(3))]
+        for vname, data in variants:
+            inp = ("Certificate.parse", vname, tag)
+            s3.note(inp, cls="cert-parse/" + vname.rstrip("0123456789") + ("/ends-in-zero" if zero_end else ""))
+            r = pyres(Certificate.parse, data)
+            realc = "ok:cert" if r[0] == "ok" else r[0]
+            L, pem_ok = loader_answers(data)
+            reqs.append((inp + (data,), f"cert_parse {hexs(data)} {L} {int(pem_ok)}", realc))
+            if data:
+                reqs.append((("load_der_x509_certificate", vname, tag, data), f"der_load {hexs(data)} {L}", real_load_class(data)))
+            if vname in ("der", "pem", "nxp") or vname.startswith("zeros") and vname[5:].isdigit():
+                ok = r[0] == "ok" and r[1].cert.public_bytes(cser.Encoding.DER) == der
+                s3.expect(ok, inp + (data,), "the certificate does not survive export -> parse", r)
+            elif vname in ("nonzero-trailer", "zeros-then-nonzero", "truncated", "truncated-half", "garbage", "empty", "declared-longer", "length-nonminimal",
+                           "length-indefinite", "other-tag", "zeros-stripped"):
+                s3.expect(r[0] == "E:spsdk", inp + (data,), "damaged certificate data is not refused with an SPSDK error", r)
+
     for depth in range(1, 5):
         for rep in range(ck.budget(3, 12)):
             ks = [rng.choice(chain_keys) for _ in range(depth)]  # ks[0] = root ... ks[-1] = leaf
@@ -1328,28 +1388,52 @@ def run(ck):
             pk = crt.get_public_key()
             s3.expect(crt.public_key_hash() == hashlib.sha256(pk.export()).digest() and pubnum(pk) == crypto_pub(crt.cert.public_key()),
                       ("pubkey", hex(crt.cert.serial_number)), "get_public_key / public_key_hash differ from the certificate's key")
-            variants = [("der", der), ("pem", pem), ("nxp", nxp[1] if nxp[0] == "ok" else der)] + [(f"zeros{k}", der + bytes(k)) for k in range(1, 6)] + [
-                ("nonzero-trailer", der + b"\x01"), ("zeros-then-nonzero", der + b"\x00\x00\x07"), ("truncated", der[:-1]), ("truncated-half", der[:len(der) // 2]),
-                ("garbage", bytes(rng.getrandbits(8) for _ in range(40))), ("empty", b""), ("pem-damaged", pem[:40] + b"!" + pem[41:]),
-                ("der-bitflip", flip(der, rng.randrange(8 * len(der))))]
-            for vname, data in variants:
-                inp = ("Certificate.parse", vname, hex(crt.cert.serial_number))
-                s3.note(inp, cls="cert-parse/" + vname.rstrip("0123456789"))
-                r = pyres(Certificate.parse, data)
-                realc = "ok:cert" if r[0] == "ok" else r[0]
-                # the loader's answers, obtained directly: length of the leading complete certificate (0 = none), PEM loadable?
-                L = 0
-                if len(data) >= 4 and data[0] == 0x30 and data[1] == 0x82:
-                    L0 = 4 + int.from_bytes(data[2:4], "big")
-                    if L0 <= len(data) and pyres(cx509.load_der_x509_certificate, data[:L0])[0] == "ok":
-                        L = L0
-                pem_ok = pyres(cx509.load_pem_x509_certificate, data)[0] == "ok"
-                reqs.append((inp + (data,), f"cert_parse {hexs(data)} {L} {int(pem_ok)}", realc))
-                if vname in ("der", "pem", "nxp") or vname.startswith("zeros") and not vname.endswith("nonzero"):
-                    ok = r[0] == "ok" and r[1].cert.public_bytes(cser.Encoding.DER) == der
-                    s3.expect(ok, inp, "the certificate does not survive export -> parse", r)
-                elif vname in ("nonzero-trailer", "zeros-then-nonzero", "truncated", "truncated-half", "garbage", "empty"):
-                    s3.expect(r[0] == "E:spsdk", inp, "damaged certificate data is not refused with an SPSDK error", r)
+            parse_cases(der, pem, nxp, hex(crt.cert.serial_number))
+            leaf_ders.append((der, len(crt.cert.signature) >= 200))  # (DER form, signed by an RSA issuer?)
+    # ---- DER forms that END IN ZERO bytes (the NXP padding must be removed by the declared length, not by "strip every trailing zero")
+    zero_enders = []
+    name0 = generate_name([{"COMMON_NAME": "ends-in-zero"}])
+    rsa_k = next((kk for ll, kk in chain_keys if isinstance(kk, PrivateKeyRsa)), None)
+    ecc_k = next((kk for ll, kk in chain_keys if isinstance(kk, PrivateKeyEcc)), None)
+    if rsa_k is not None:  # PKCS#1 v1.5 is deterministic: walk the serial number until the signature (= the end of the DER form) ends in 0x00
+        for serial in range(70000, 70000 + ck.budget(4000, 20000)):
+            c0 = pyres(Certificate.generate_certificate, name0, name0, rsa_k.get_public_key(), rsa_k, serial, None, None, False)
+            if c0[0] == "ok" and c0[1].cert.public_bytes(cser.Encoding.DER)[-1] == 0:
+                zero_enders.append(("signed-rsa", c0[1].cert.public_bytes(cser.Encoding.DER), c0[1]))
+                break
+    if ecc_k is not None:  # ECDSA: fresh nonce per attempt, the DER form ends with the last byte of s
+        for att in range(ck.budget(3000, 20000)):
+            c0 = pyres(Certificate.generate_certificate, name0, name0, ecc_k.get_public_key(), ecc_k, 90000 + att)
+            if c0[0] == "ok" and c0[1].cert.public_bytes(cser.Encoding.DER)[-1] == 0:
+                zero_enders.append(("signed-ecc", c0[1].cert.public_bytes(cser.Encoding.DER), c0[1]))
+                break
+    seen_kind = set()
+    for der0, is_rsa in leaf_ders:  # the last k bytes of the signature BIT STRING set to zero: still a well-formed certificate (parse does not verify)
+        if is_rsa in seen_kind:
+            continue
+        seen_kind.add(is_rsa)
+        for k in (1, 2, 3, 4, 7):
+            dz = der0[:-k] + bytes(k)
+            if pyres(cx509.load_der_x509_certificate, dz)[0] == "ok":
+                zero_enders.append((f"patched-{'rsa' if is_rsa else 'ecc'}-{k}", dz, None))
+    ck.extra["zero_ending_certificates"] = [z[0] for z in zero_enders]
+    s3.expect(sum(1 for z in zero_enders if z[0].startswith("patched")) >= 3 and any(z[0].startswith("signed") for z in zero_enders), ("zero-ending certificates",),
+              "the generator did not produce certificates whose DER form ends in 0x00 (coverage of the padding removal lost)", [z[0] for z in zero_enders])
+    for zkind, dz, czero in zero_enders:
+        cz = pyres(lambda: Certificate(cx509.load_der_x509_certificate(dz)))
+        if cz[0] != "ok":
+            s3.expect(False, ("zero-ender", zkind, dz), "cannot wrap a certificate cryptography loads", cz)
+            continue
+        nxpz = pyres(cz[1].export, SPSDKEncoding.NXP)
+        s3.note(("export", zkind), cls="cert-export/ends-in-zero")
+        reqs.append((("cert_export_nxp", dz), "cert_export_nxp " + hexs(dz), f"ok:{nxpz[1].hex()},{cz[1].raw_size}" if nxpz[0] == "ok" else nxpz[0]))
+        s3.expect(nxpz[0] == "ok" and nxpz[1][:len(dz)] == dz and len(nxpz[1]) % 4 == 0 and len(nxpz[1]) - len(dz) < 4 and not any(nxpz[1][len(dz):]),
+                  ("export", zkind, dz), "NXP export is not the DER form zero-padded to a multiple of 4", nxpz)
+        parse_cases(dz, cz[1].cert.public_bytes(cser.Encoding.PEM), nxpz, zkind, zero_end=True)
+        if czero is not None:  # a genuinely signed one also validates after the NXP round trip
+            back = pyres(Certificate.parse, nxpz[1] if nxpz[0] == "ok" else dz)
+            s3.expect(back[0] == "ok" and pyres(back[1].validate, back[1]) == ("ok", True), ("zero-ender", zkind, "validate", dz),
+                      "a self-signed certificate whose DER form ends in 0x00 does not validate after export(NXP) -> parse", back)
     # ---- extract_public_key_from_data: attempt order
     def tri(fn):
         r = pyres(fn)
